@@ -257,8 +257,22 @@ let case_chan k line lines =
          | "REQ" :: t :: "send" :: args ->
            let tok = int_of_string (String.sub t 1 (String.length t - 1)) in
            let (block, rest') = until_tag "RET" [] rest in
-           let qid = (idseq + !nreq) land 0xffff in
-           incr nreq;
+           (* query ids are drawn sequentially (idseq): one per request - also when it fails with
+              "no servers" - and one per server probe (ares_probe_failed_server sends a copy of the
+              query, under a fresh id, to a server that is marked failed; it shows up as a second TX
+              inside this REQ block).  The request's own query is the FIRST transmission of the
+              block; without one (TCP write deferred) it is the next id in sequence. *)
+           let first_tx = List.find_map (fun l -> match words l with "TX" :: _ :: _ :: ws -> (match field "id" ws with Some v -> Some (int_of_string v) | None -> None) | _ -> None) block in
+           let qid = match first_tx with Some id -> id | None -> (idseq + !nreq) land 0xffff in
+           nreq := ((qid - idseq) land 0xffff) + 1;
+           List.iter (fun l -> match words l with
+             | "TX" :: _ :: _ :: ws ->
+               (match field "id" ws with
+                | Some v when int_of_string v <> qid ->
+                  Hashtbl.replace feats "probe" ();
+                  nreq := max !nreq (((int_of_string v - idseq) land 0xffff) + 1)
+                | _ -> ())
+             | _ -> ()) block;
            if !s_now = 0 then begin
              (* ares_send_nolock: an id is drawn, then "no servers": ENOSERVER callback, no query *)
              Hashtbl.replace feats "noserver" ();
@@ -319,10 +333,20 @@ let case_chan k line lines =
       end) queries;
     (* termination clause: the history ends with enough adv+proc rounds to use up every retry
        budget; before the tear-down nothing may be outstanding *)
+    (* ... which only makes sense when the history really ends with those rounds (a shrunk or
+       hand-written case may not): count the trailing "adv >= maxtimeout; proc" pairs *)
+    let ops = List.rev (List.map String.trim (split_on ';' (String.sub line (bar + 1) (String.length line - bar - 1)))) in
+    let ops = (match ops with "qlen" :: r -> r | r -> r) in
+    let rec tail_rounds n = function
+      | ("proc" | "proct") :: a :: r when starts_with "adv " a && (try int_of_string (String.sub a 4 (String.length a - 4)) >= maxt with _ -> false) -> tail_rounds (n + 1) r
+      | _ -> n in
+    let budget_exhausting_tail = tail_rounds 0 ops >= !smax * tries + 2 in
+    if budget_exhausting_tail then Hashtbl.replace feats "fulltail" ();
+    if budget_exhausting_tail then
     (match List.rev (List.filter_map (fun l -> match words l with ["QLEN"; n] -> Some n | _ -> None) lines) with
      | n :: _ when n <> "0" -> fail k "query-never-terminates" "ares_queue_active_queries() = %s after the final rounds" n
      | _ -> ());
-    if !unfinished > 0 && List.exists (fun l -> starts_with "ENDSTATE" l) lines then begin
+    if budget_exhausting_tail && !unfinished > 0 && List.exists (fun l -> starts_with "ENDSTATE" l) lines then begin
       (* the generator always ends with enough processing rounds for every query to use up its budget *)
       let pend = List.find_map (fun l -> match words l with "ENDSTATE" :: ws -> field "pending_tokens" ws | _ -> None) lines in
       ignore pend;
